@@ -69,20 +69,20 @@ CLAIMED.update({
     "C19": ("round-trip testing (render -> parse -> compare with the API-built value -> Display) over grammar-generated terms, goals and rules + exhaustive small terms and bodies",
             "Exploration: canonical text and accepted variants (tight commas, quoted atoms, infix comparison/arithmetic, bare zero-arity, redundant parentheses) must parse to the value built through the API from the same AST, and Display must reproduce the canonical text; small terms and and/or bodies enumerated completely.",
             "Canonical text parenthesises every nested operator goal except a conjunction inside a disjunction.", "DESIGN.md §4 C19"),
-    "C20": ("metamorphic testing: the same term text in 14 syntactic contexts",
-            "Exploration: grammar terms, generated signed numbers (optional sign, 1-20 digits, optional fraction), punctuation and odd atoms placed alone, as argument, list element, infix operand, query and fact argument; all contexts must yield the same term or all must reject.",
+    "C20": ("metamorphic testing: the same term text in 32 syntactic contexts (positions x spacing variants)",
+            "Exploration: grammar terms, generated signed numbers (optional sign, 1-20 digits, optional fraction), punctuation and odd atoms placed alone, as first/second/third argument of complex terms, goals, built-ins, functions, queries and facts (with a blank, without one, with two blanks or a tab after the comma, padded with blanks), as (nested) list element with the same spacing variants and before a tail, as infix operand alone and inside a rule body; all contexts must yield the same term or all must reject.",
             "Ids are stripped before comparing (query construction renames).", "DESIGN.md §4 C20"),
     "C21": ("differential testing of load_kb_from_file against rule-by-rule parse_rule over generated files with random legal layout",
-            "Exploration: 1-5 generated rules laid out with breaks at the documented continuation characters, indentation, blank lines and #, %, // comments; the loaded knowledge base must equal the rule-by-rule one (class 2, breaks inside parentheses, may alternatively be rejected).",
+            "Exploration: 1-5 generated rules laid out with breaks after the documented continuation characters (`:-`, `,`, `;`, infix `=` `==` `<=` `>=` and ` - `), indentation, blank lines and #, %, // comments; the loaded knowledge base must equal the rule-by-rule one (class 1: breaks outside parentheses and brackets; class 2: breaks after the same characters also inside argument lists, lists and parenthesised groups of goals, where a rejection with an error is accepted as well).",
             "A file is in the claim only if each rule is accepted by parse_rule on its own.", "DESIGN.md §4 C21"),
     "C22": ("metamorphic testing over generated query histories (stateful: history as a vector of operations) with a reference check of the baseline",
-            "Exploration: 1-5 earlier queries in generated modes (abandoned, exhausted, re-asked, solve, solve_all, timed out, unknown predicate) followed by the query under test; answers and output must equal those of the same query run first.",
+            "Exploration: 1-5 earlier queries in generated modes (abandoned, exhausted, re-asked, solve, solve_all, timed out, unknown predicate) followed by the query under test; answers and output must equal those of the same query run first. In a few cases per run the caller of the final query sleeps 1.1 s between its first and second answer, so a timer left armed by any earlier solve/solve_all call (whichever way that call ended) fires while the query is live.",
             "Timed-out earlier queries are produced through start_query_timer(1)/cancel_timer (the state solve() leaves after a timeout); real 1 s timeouts are exercised by C23.", "DESIGN.md §4 C22"),
-    "C23": ("oracle-checked runs under the real timer thread: fast generated queries, calibrated slow queries on both sides of the 1 s limit, stray-timer rounds",
-            "Exploration: solve/solve_all results must be a prefix of the real answers, complete unless followed by the timeout message, which may only appear after >= 0.95 s; fast queries must never time out; thousands of microsecond queries must not leave a timer that stops a later query.",
-            "Timer-thread interleavings are sampled by real time, not controlled; overloaded-machine timings are counted as inconclusive discards.", "DESIGN.md §4 C23"),
+    "C23": ("oracle-checked runs over generated programs with the timer firing at a harness-chosen search step (stop_query() injected at the k-th next_solution), plus runs under the real timer thread: fast generated queries, calibrated slow queries on both sides of the 1 s limit, stray-timer rounds",
+            "Exploration: solve/solve_all results must be a prefix of the real answers, complete unless followed by the timeout message, which may only appear after >= 0.95 s; fast queries must never time out; thousands of microsecond queries ending in every possible way must not leave a timer that stops a later query; for generated programs (cut, not, and/or, built-ins) the stop flag is raised at 4 generated search steps each and solve_all / successive solve calls must still report a prefix of the answers, a timeout message only if the flag was raised, and never panic.",
+            "The real timer thread's interleavings are sampled by real time; the injected-stop class owns the schedule at the granularity of next_solution entries (the only places the engine reads the flag are behind them). Overloaded-machine timings are counted as inconclusive discards.", "DESIGN.md §4 C23"),
     "C24": ("generated programs and call histories (proptest) replayed through the public API under Miri as the undefined-behaviour detector (Stacked Borrows, data races, out-of-bounds, use-after-free)",
-            "Exploration: about 100 (quick) / 800 (thorough) generated histories - enumerate and re-ask, solve_all + solve, abandoned query + second query, parse + solve, timer firing during a search - executed under Miri in 16 parallel processes; any Undefined Behavior diagnostic is a violation identified by diagnostic kind and source location. The shallowest check of the set: hundreds of histories, not millions.",
+            "Exploration: about 100 (quick) / 800 (thorough) generated histories - enumerate and re-ask, solve_all + solve, abandoned query + second query, parse + solve, timer firing during a search, a cut executing underneath not(...)/time(...) - executed under Miri in 16 parallel processes; any Undefined Behavior diagnostic is a violation identified by diagnostic kind and source location. The shallowest check of the set: hundreds of histories, not millions.",
             "Miri's Stacked Borrows model is taken as the definition of aliasing UB; leaks are ignored; the timer thread's schedule is sampled (Miri scheduler seed = VERIF_SEED + shard), not enumerated. Needs `cargo +nightly miri` (pre-installed).", "DESIGN.md §4 C24"),
 })
 
